@@ -299,7 +299,7 @@ pub fn run(tier: Tier, seed: u64) -> i32 {
         l.add("strings_per_template", strings.len() as u64);
         l.add("multibyte_strings_per_template", strings_mb.len() as u64);
     });
-    let n = ctx.pick(400_000, 5_000_000);
+    let n = ctx.pick(1_200_000, 15_000_000);
     ctx.par_random(n, 200, 7, |tape, l| {
         let (g, input, sub, seed) = decode(tape);
         debug_assert!(wf(&g), "ill-formed: {}", render(&g));
